@@ -28,7 +28,11 @@ func absTok(t *Tok) string {
 	return fmt.Sprintf("f%d#%d.%d.%d", t.Fn, t.Exec, t.Slot, t.Elem)
 }
 
-func summarize(w *World) []opSummary {
+func summarize(w *World) []opSummary { return summarizeMasked(w, false) }
+
+// summarizeMasked: with maskSoft, what a soft group parameter received is not part of the summary (it depends on
+// what has run before the parameter is built, which the position among the parameters decides).
+func summarizeMasked(w *World, maskSoft bool) []opSummary {
 	out := make([]opSummary, len(w.h.Ops))
 	for i, op := range w.h.Ops {
 		rec := w.ops[i]
@@ -40,7 +44,11 @@ func summarize(w *World) []opSummary {
 		s.Verdict = rec.Verdict
 		for _, e := range rec.Execs {
 			var args []string
-			for _, a := range e.Args {
+			for ai, a := range e.Args {
+				if maskSoft && e.Fn < len(w.h.Fns) && ai < len(w.h.Fns[e.Fn].Params) && w.h.Fns[e.Fn].Params[ai].Soft {
+					args = append(args, "[~soft]")
+					continue
+				}
 				var ts []string
 				for _, t := range a {
 					ts = append(ts, absTok(t))
@@ -392,7 +400,8 @@ func checkC15(c *Case, trace bool) *CaseResult {
 			res.Log = append(res.Log, fmt.Sprintf("f%d penc=%v renc=%v variadic=%v", f.ID, f.PEnc, f.REnc, f.Variadic))
 		}
 	}
-	msg, at, n := compareSummaries(summarize(a), summarize(b), identityMapping(len(c.H.Ops)), diffFlags{execs: true, info: true}, c.H, t)
+	maskSoft := c.Kind == "diff:c15big"
+	msg, at, n := compareSummaries(summarizeMasked(a, maskSoft), summarizeMasked(b, maskSoft), identityMapping(len(c.H.Ops)), diffFlags{execs: true, info: true}, c.H, t)
 	res.Stats["diff.ops-compared"] += n
 	if msg != "" {
 		res.Viol = append(res.Viol, Violation{Props: []string{"C15"}, Rule: "C15.encoding-changes-behaviour", Op: at,
